@@ -124,9 +124,14 @@ def array_base(arr: np.ndarray) -> np.ndarray:
 def digest_array(arr: np.ndarray) -> str:
     b = array_base(arr)
     h = hashlib.sha256()
-    h.update(str((b.dtype.str, b.shape, b.strides)).encode())
+    def layout(x):
+        # the dtype in full: field names, field dtypes and offsets are part of what the caller owns
+        dt_ = x.dtype
+        f = None if dt_.names is None else [(n_, str(dt_.fields[n_][0]), dt_.fields[n_][1]) for n_ in dt_.names]
+        return str((dt_.str, dt_.itemsize, f, x.shape, x.strides, bool(x.flags.writeable)))
+    h.update(layout(b).encode())
     h.update(np.ascontiguousarray(b).view(np.uint8).tobytes() if b.size else b'')
-    h.update(str((arr.dtype.str, arr.shape, arr.strides)).encode())
+    h.update(layout(arr).encode())
     return h.hexdigest()
 
 
